@@ -44,7 +44,7 @@ def run(rng, tier, res=None):
             X = np.array([[rng.gauss(0, 1) * rng.choice([1, 1, 10]) for _ in range(d)] for _ in range(n)])
         Y = np.array([i % K for i in range(n)], dtype=int); rng.shuffle(Y)
         Q = np.array([[rng.gauss(0, 1.5) for _ in range(d)] for _ in range(nq)])
-        scale = rng.choice([1.0, 1.0, 1e-3, 1e3, 1e-2])     # the invariances do not depend on the unit of the features
+        scale = rng.choice([1.0, 1.0, 1e-3, 1e3, 1e-2, 1e-11, 1e-12])     # the invariances do not depend on the unit of the features
         X = X * scale; Q = Q * scale
         narrow = None
         mode_ = rng.random()
@@ -163,16 +163,21 @@ def run(rng, tier, res=None):
                     mx = max(mx, V[t])
         if inverted:
             viol([f"{inverted[0][0]} is not a monotone transform of euclidean on this data: {inverted[0][1:]}"], meta)
-        elif any(ot[m] != ot["euclidean"] for m in FAMILY):
+        fam_ok = [m for m in FAMILY if ot[m] == ot["euclidean"]]     # members whose rounding merged no two values on this data
+        if inverted:
+            pass
+        elif len(fam_ok) < 2:
             res.hit("family_skipped_rounding_merges_values")
         else:
+            if len(fam_ok) < len(FAMILY):
+                res.hit("family_checked_on_members_without_merges")
             outs = {}
-            for m in FAMILY:
+            for m in fam_ok:
                 o = SupervisedOPF(distance=m); o.fit(X.copy(), Y.copy())
                 outs[m] = ([nd.status for nd in o.subgraph.nodes], [nd.pred for nd in o.subgraph.nodes],
                            [nd.predicted_label for nd in o.subgraph.nodes], list(o.subgraph.idx_nodes), list(o.predict(Q.copy())))
             msgs = []
-            for m in FAMILY[1:]:
+            for m in fam_ok[1:]:
                 if outs[m] != outs["euclidean"]:
                     names = ["prototypes", "predecessors", "assigned labels", "conquest order", "predictions"]
                     msgs.append(f"{m} vs euclidean: {[nm for nm, u, v in zip(names, outs[m], outs['euclidean']) if u != v]} differ")
